@@ -1593,7 +1593,7 @@ class EventType:
 
     # noinspection PyDataclass
     avp_def: dataclasses.InitVar[AvpGenType] = (
-        AvpGenDef("sip_method", AVP_SIP_METHOD),
+        AvpGenDef("sip_method", AVP_TGPP_3GPP_SIP_METHOD, VENDOR_TGPP),
         AvpGenDef("event", AVP_TGPP_EVENT, VENDOR_TGPP),
         AvpGenDef("expires", AVP_TGPP_EXPIRES, VENDOR_TGPP),
     )
